@@ -67,6 +67,7 @@ fn directed_cfg(k: u64) -> (WorldCfg, Value) {
 
 fn run_history(seed: u64, index: u64, mode_c12: bool, steps: u64) -> (drive::Obs, Vec<Value>, BTreeMap<String, u64>, Value) {
     let hist_id = format!("seed={seed} index={index}");
+    if let Ok(mut v) = world::SERVICE_PANICS.lock() { v.clear(); }
     if (DIRECTED..LEGACY).contains(&index) {
         let k = index - DIRECTED;
         let mut rng = Rng::new(seed ^ index.wrapping_mul(0x9E37_79B9_7F4A_7C15));
@@ -115,6 +116,7 @@ fn main() {
         "C13" => false,
         _ => panic!("unknown property {prop}"),
     };
+    world::install_panic_hook();
     let seed = seed();
     let thorough = tier_is_thorough();
     let out = out_dir(&prop);
@@ -132,7 +134,7 @@ fn main() {
     let (n_hist, steps) = match (thorough, std::env::var("HX_HIST").ok().and_then(|s| s.parse::<u64>().ok())) {
         (_, Some(n)) => (n, env_u64("HX_STEPS", 60)),
         (false, None) => (env_u64("HX_HIST_QUICK", 30), 60),
-        (true, None) => (hx_common::shard_share(600), 90),
+        (true, None) => (hx_common::shard_share(360), 90),
     };
     let replay = std::env::var("HX_REPLAY").ok();
     let mut indices: Vec<u64> = (0..n_hist).collect();
